@@ -60,21 +60,32 @@ def handle (req : Json) : Json :=
   match op with
   | "tokens" => Json.mkObj [("tokens", Json.arr ((lexRaw text).map tokJson).toArray)]
   | "tree" =>
-    match parse text with
+    match parseFull text with
     | none => Json.mkObj [("errors", (1 : Nat))]
-    | some (cst, rest) =>
-      Json.mkObj [("errors", (0 : Nat)), ("tree", cst.dump), ("leftover", (rest.length : Nat))]
+    | some cst => Json.mkObj [("errors", (0 : Nat)), ("tree", cst.dump), ("leftover", (0 : Nat))]
+  | "format" =>
+    match Fmt.format text with
+    | .ok t => Json.mkObj [("ok", true), ("out", t)]
+    | .syntaxError => Json.mkObj [("ok", false), ("out", text)]
+    | .panic _ => Json.mkObj [("panic", "nil")]
+  | "fmtinfo" =>
+    let i := Fmt.info text
+    Json.mkObj [("leftover", i.leftover), ("lexErrors", i.lexErrors), ("objectDocs", i.objectDocs), ("mixedLists", i.mixedLists),
+                ("multilineDocs", i.multilineDocs), ("lostNeverRead", i.lostNeverRead), ("lostOtherLine", i.lostOtherLine),
+                ("comments", i.comments),
+                ("result", match i.result with | .ok _ => "ok" | .syntaxError => "err" | .panic (.other s) => "panic:" ++ s),
+                ("out", match i.result with | .ok t => Json.str t | _ => Json.null)]
   | "model" =>
-    match parse text with
+    match parseFull text with
     | none => Json.mkObj [("synerr", (1 : Nat))]
-    | some (cst, _) =>
+    | some cst =>
       match Visit.run cst with
       | .ok st => Json.mkObj [("synerr", (0 : Nat)), ("model", Visit.dumpJ st)]
       | .error c => Json.mkObj [("panic", c.kind), ("site", match c with | .nilDeref s => s | .assert s => s | .index s => s | .stack => "stack")]
   | "conform" | "search" =>
-    match parse text with
+    match parseFull text with
     | none => Json.mkObj [("error", "syntax")]
-    | some (cst, _) =>
+    | some cst =>
       match specOf cst with
       | none => Json.mkObj [("error", "no-spec")]
       | some S =>
